@@ -6,7 +6,7 @@ from typing import Any, Dict
 from .. import gen, hta
 from ..core import Prop
 from .c04 import breakdown_cfg
-from .common import case_from_cfg, draw_prefix, frame_rows, write_and_load
+from .common import file_entries, case_from_cfg, draw_prefix, frame_rows, write_and_load
 
 
 class C05(Prop):
@@ -53,7 +53,7 @@ class C05(Prop):
             if any(not any(x["stream"] != -1 for x in rows[r]) for r in ranks):
                 return {"skip": True}
             obs = {"prop": "C05", "err": "", "incMem": bool(case["incMem"]), "numK": case["numK"],
-                   "ranks": [{"rank": r, "rows": rows[r]} for r in ranks], "types": [], "kernels": []}
+                   "ranks": [{"rank": r, "file": file_entries(case, r), "rows": rows[r]} for r in ranks], "types": [], "kernels": []}
             try:
                 tdf, kdf = ta.get_gpu_kernel_breakdown(visualize=False, duration_ratio=case["ratio"], num_kernels=case["numK"],
                                                        include_memory_kernels=case["incMem"])
